@@ -313,6 +313,16 @@ def run(ctx):
         precision = rng.choice([None, None, 0, 1, 2, 3, 6])
         ref = gen_frame(rng, precision)
         act, kind = mutate(rng, ref, precision)
+        # row labels play no part (rows are compared by position): frames that come from a filter, a sort or set_index
+        # carry other labels than the reference read from a file
+        relabel = rng.random()
+        if relabel < 0.3 and len(act):
+            labels = rng.sample(range(3 * len(act) + 5), len(act))
+            act.index = labels if rng.random() < 0.7 else ['r%d' % i for i in labels]
+            ctx.bump('relabelled.actual')
+            if relabel < 0.08 and len(ref):
+                ref.index = rng.sample(range(3 * len(ref) + 5), len(ref))
+                ctx.bump('relabelled.reference')
         level = rng.choice(LEVELS)
         rcols, acols = list(ref), list(act)
         flags = {'check_data': gen_flag(rng, rcols), 'check_types': gen_flag(rng, rcols),
